@@ -57,7 +57,7 @@ func report(prop, tier string, seed int, ps *propSpec, w *world, rr *runResult, 
 			continue
 		}
 		_, inLedger := lg.Obligations[o.name]
-		isClaimed := inLedger || lg.Complete[o.fn] || claimEverything
+		isClaimed := inLedger || lg.isClaimed(o) || claimEverything
 		ok := o.status == "unsat"
 		if kf, isKnown := known[o.name]; isKnown {
 			if !ok {
